@@ -448,6 +448,18 @@ func c19Stable(c *evid.Ctx, rng *rand.Rand) {
 			ints[k] = rng.Uint64()
 			extraI = append(extraI, []byte(k))
 		}
+		// stores that keep Set and SetUint64 in separate key spaces (raft.InmemStore) may hold
+		// the same name in both: each must be copied in its own space
+		if sk == "inmem" && dk == "inmem" && rng.Intn(2) == 0 {
+			name := []string{"CurrentTerm", "xi0", "shared"}[rng.Intn(3)]
+			if _, isInt := ints[name]; !isInt {
+				ints[name] = rng.Uint64()
+				extraI = append(extraI, []byte(name))
+			}
+			strs[name] = []byte("same name, other key space")
+			extraK = append(extraK, []byte(name))
+			c.Distinct("copy_classes", "stable|same key name in both key spaces")
+		}
 		for k, v := range ints {
 			src.SetUint64([]byte(k), v)
 		}
